@@ -338,6 +338,7 @@ func (ds *dataSet) Close() {
 	}
 	for _, a := range aof {
 		a.Close()
+		verifhook.Point("store.ds", "seg-closed", a.Left())
 	}
 }
 
@@ -347,6 +348,7 @@ func (ds *dataSet) CloseAofWriter() {
 	ds.mux.Unlock()
 	for _, a := range aof {
 		a.Close()
+		verifhook.Point("store.ds", "seg-closed", a.Left())
 	}
 }
 
